@@ -98,6 +98,82 @@ class AddLogging(ast.NodeTransformer):
     visit_AsyncFunctionDef = visit_FunctionDef
 
 
+class EditMessages(ast.NodeTransformer):
+    """Reword docstrings, logger messages and the literal parts of exception messages (all sites alike)."""
+
+    def _doc(self, node):
+        if node.body and isinstance(node.body[0], ast.Expr) and isinstance(node.body[0].value, ast.Constant) and isinstance(node.body[0].value.value, str):
+            node.body[0].value = ast.Constant(value=node.body[0].value.value + "\n\nReworded.")
+
+    def visit_FunctionDef(self, node):
+        self._doc(node)
+        self.generic_visit(node)
+        return node
+
+    visit_AsyncFunctionDef = visit_FunctionDef
+    visit_ClassDef = visit_FunctionDef
+
+    def visit_Call(self, node):
+        self.generic_visit(node)
+        f = node.func
+        if isinstance(f, ast.Attribute) and isinstance(f.value, ast.Name) and f.value.id == "logger" and node.args and isinstance(node.args[0], ast.Constant) and isinstance(node.args[0].value, str):
+            node.args[0] = ast.Constant(value="[log] " + node.args[0].value)
+        return node
+
+    def visit_Raise(self, node):
+        self.generic_visit(node)
+        exc = node.exc
+        if isinstance(exc, ast.Call) and exc.args:
+            a = exc.args[0]
+            if isinstance(a, ast.Constant) and isinstance(a.value, str):
+                exc.args[0] = ast.Constant(value=a.value + " (reworded)")
+            elif isinstance(a, ast.JoinedStr):
+                a.values.append(ast.Constant(value=" (reworded)"))
+        return node
+
+
+class ReturnTemp(ast.NodeTransformer):
+    """`return <expr>` becomes `_ret = <expr>; return _ret` (a common refactoring before adding a log line)."""
+
+    def _fix(self, body):
+        out = []
+        for st in body:
+            if isinstance(st, ast.Return) and st.value is not None and not isinstance(st.value, (ast.Name, ast.Constant)):
+                out.append(ast.Assign(targets=[ast.Name(id="_ret", ctx=ast.Store())], value=st.value, lineno=st.lineno))
+                out.append(ast.Return(value=ast.Name(id="_ret", ctx=ast.Load())))
+            else:
+                out.append(st)
+        return out
+
+    def generic_visit(self, node):
+        super().generic_visit(node)
+        for field in ("body", "orelse", "finalbody"):
+            b = getattr(node, field, None)
+            if isinstance(b, list) and b and isinstance(b[0], ast.stmt):
+                setattr(node, field, self._fix(b))
+        return node
+
+
+class StripLocalAnnotations(ast.NodeTransformer):
+    """`x: T = v` inside functions becomes `x = v`."""
+
+    def __init__(self):
+        self.depth = 0
+
+    def visit_FunctionDef(self, node):
+        self.depth += 1
+        self.generic_visit(node)
+        self.depth -= 1
+        return node
+
+    visit_AsyncFunctionDef = visit_FunctionDef
+
+    def visit_AnnAssign(self, node):
+        if self.depth and node.value is not None and isinstance(node.target, ast.Name):
+            return ast.copy_location(ast.Assign(targets=[node.target], value=node.value), node)
+        return node
+
+
 class SqlWhitespace(ast.NodeTransformer):
     """Collapse runs of whitespace inside SQL string constants (line-comment free ones only)."""
 
@@ -125,6 +201,15 @@ def make_variant(kind, dst):
         elif kind == "add-statement":
             tree = AddLogging().visit(tree)
             ast.fix_missing_locations(tree)
+        elif kind == "return-temp":
+            tree = ReturnTemp().visit(tree)
+            ast.fix_missing_locations(tree)
+        elif kind == "strip-local-annotations":
+            tree = StripLocalAnnotations().visit(tree)
+            ast.fix_missing_locations(tree)
+        elif kind == "messages":
+            tree = EditMessages().visit(tree)
+            ast.fix_missing_locations(tree)
         elif kind == "sql-whitespace":
             tree = SqlWhitespace().visit(tree)
             ast.fix_missing_locations(tree)
@@ -143,7 +228,7 @@ def run_check(args):
 
 
 def main():
-    kinds = sys.argv[1:] or ["reformat", "rename-locals", "add-statement", "sql-whitespace", "rename+add"]
+    kinds = sys.argv[1:] or ["reformat", "rename-locals", "add-statement", "sql-whitespace", "rename+add", "messages", "strip-local-annotations", "return-temp"]
     tmp = pathlib.Path(tempfile.mkdtemp(prefix="verif_benign_"))
     try:
         for kind in kinds:
